@@ -1,4 +1,5 @@
 import Gsd.Model.Expiry
+import Gsd.Generated.Facts
 import Gsd.Driver.Proto
 /-!
 Driver for C09.  Case line:
@@ -52,6 +53,19 @@ def parseCase (line : String) : Option Case := do
     let is ← intOfTok is
     let ops ← (rest.filter (fun l => !l.isEmpty)).mapM parseOp
     some { cfg := fun ty => match ty with | .counter => ic | .timer => it | .gauge => ig | .set => is, ops := ops }
+  | ["cfg", m, c, t, g, sS] :: rest =>
+    -- start-up configuration: main interval and per-type overrides (`-` = not given); resolved as documented
+    let opt (x : String) : Option (Option Int) := if x = "-" then some none else (intOfTok x).map some
+    let m ← opt m
+    let c ← opt c
+    let t ← opt t
+    let g ← opt g
+    let sS ← opt sS
+    let d : Int := Gsd.Facts.defaultExpiryIntervalNs
+    let ops ← (rest.filter (fun l => !l.isEmpty)).mapM parseOp
+    some { cfg := fun ty => match ty with
+             | .counter => resolveInterval d m c | .timer => resolveInterval d m t
+             | .gauge => resolveInterval d m g | .set => resolveInterval d m sS, ops := ops }
   | _ => none
 
 def b01 (b : Bool) : String := if b then "1" else "0"
